@@ -193,11 +193,25 @@ def _ttl_block(qs, style, ind, formulas=None):
             inner = subj_of[s]
             for x in inner:
                 done.add(id(x))
+            if style.get("n3path") and len(inner) >= 2 and inner[0][2][0] in "in":
+                # N3 path  O^P Q O2 .   (the node X with  X P O)
+                body = " ; ".join("%s %s" % (_ttl_ground(x[1], style), obj_text(x[2])) for x in inner[1:])
+                out.append("%s%s^%s %s ." % (ind, _ttl_ground(inner[0][2], style), _ttl_ground(inner[0][1], style), body))
+                i += 1
+                continue
             body = " ; ".join("%s %s" % (_ttl_ground(x[1], style), obj_text(x[2])) for x in inner)
             if style.get("anonstyle"):
                 out.append("%s[ %s ] ." % (ind, body))
             else:
                 out.append("%s[] %s ." % (ind, body))
+            i += 1
+            continue
+        if (style.get("n3path") and s not in formulas and q[2][0] == "a" and q[2] not in formulas
+                and subj_of.get(q[2]) and coll_items(q[2]) is None):
+            # N3 path  S!P Q O .   (the node X with  S P X)
+            done.add(id(q))
+            body = " ; ".join("%s %s" % (_ttl_ground(x[1], style), obj_text(x[2])) for x in subj_of[q[2]])
+            out.append("%s%s!%s %s ." % (ind, _ttl_ground(s, style), _ttl_ground(q[1], style), body))
             i += 1
             continue
         # group following quads with the same subject (and predicate) when asked to
@@ -254,9 +268,27 @@ def write_trig(quads, style):
 
 
 def _xml_qname(iri):
+    if iri.startswith(RDFNS):
+        return "rdf:" + iri[len(RDFNS):]
     if not iri.startswith(NS_E):
-        raise ValueError("predicate outside the e: namespace")
+        raise ValueError("predicate outside the e: / rdf: namespaces")
     return "e:" + iri[len(NS_E):]
+
+
+def _chain_items(o, subj_of):
+    """items of the rdf:first/rdf:rest chain starting at the anonymous node o, or None"""
+    items = []
+    while True:
+        inner = subj_of.get(o, [])
+        if len(inner) != 2 or inner[0][1] != ("i", RDFNS + "first") or inner[1][1] != ("i", RDFNS + "rest"):
+            return None
+        items.append(inner[0][2])
+        nxt = inner[1][2]
+        if nxt == ("i", RDFNS + "nil"):
+            return items
+        if nxt[0] != "a":
+            return None
+        o = nxt
 
 
 def _xml_props(qs, anon_subj, style, ind):
@@ -275,7 +307,20 @@ def _xml_props(qs, anon_subj, style, ind):
                 att = " rdf:datatype=%s" % quoteattr(o[2])
             out.append("%s<%s%s>%s</%s>" % (ind, tag, att, escape(o[1]), tag))
         else:  # anonymous object, its own statements nested
-            inner = _xml_props(anon_subj.get(o, []), anon_subj, style, ind + "    ")
+            own = anon_subj.get(o, [])
+            items = _chain_items(o, anon_subj) if not style.get("nocoll") else None
+            if items is not None and all(x[0] in "in" for x in items):
+                out.append("%s<%s rdf:parseType=\"Collection\">" % (ind, tag))
+                for x in items:
+                    out.append("%s  <rdf:Description %s=%s/>" % (ind, "rdf:about" if x[0] == "i" else "rdf:nodeID", quoteattr(x[1])))
+                out.append("%s</%s>" % (ind, tag))
+                continue
+            if (style.get("propattr") and own and all(x[2][0] == "l" and not x[2][2] and not x[2][3] for x in own)
+                    and len({x[1] for x in own}) == len(own) and all(x[1][1].startswith(NS_E) for x in own)):
+                # property attributes on an empty property element: a fresh node with those literal properties
+                out.append("%s<%s %s/>" % (ind, tag, " ".join("%s=%s" % (_xml_qname(x[1][1]), quoteattr(x[2][1])) for x in own)))
+                continue
+            inner = _xml_props(own, anon_subj, style, ind + "    ")
             if style.get("anonstyle") and inner:
                 out += ["%s<%s rdf:parseType=\"Resource\">" % (ind, tag)] + inner + ["%s</%s>" % (ind, tag)]
             else:
@@ -366,7 +411,16 @@ def _jl_id(t):
     return "" if t[1] == EMPTY_ID else "_:" + t[1]
 
 
-def _jl_nodes(qs, style):
+def _jl_term_name(iri):
+    return "t_" + iri.rsplit("/", 1)[-1].replace("#", "_")
+
+
+def _jl_nodes(qs, style, terms):
+    """node objects for one run of quads of one graph.  style["jl"]: None | "coerce" (compact terms with "@type": "@id"
+    and a property-scoped context; IRI / blank-node objects as plain strings) | "reverse" ("@reverse" maps) ;
+    style["typekw"]: rdf:type statements as "@type"; collections as {"@list": …} unless style["nocoll"].
+    `terms` collects the term definitions the context must carry."""
+    mode = style.get("jl")
     subj_of = {}
     for q in qs:
         subj_of.setdefault(q[0], []).append(q)
@@ -382,6 +436,9 @@ def _jl_nodes(qs, style):
             elif o[2]:
                 d["@type"] = o[2]
             return d
+        items = _chain_items(o, subj_of) if not style.get("nocoll") else None
+        if items is not None:
+            return {"@list": [obj(x) for x in items]}       # (an item that is itself a chain gives a list of lists)
         return props(o, subj_of.get(o, []))
 
     def props(s, qs_):
@@ -389,14 +446,26 @@ def _jl_nodes(qs, style):
         if s[0] != "a":
             d["@id"] = _jl_id(s)
         for q in qs_:
-            key = q[1][1] if q[1][0] == "i" else "_:" + q[1][1]      # blank-node property key (generalized RDF)
-            d.setdefault(key, []).append(obj(q[2]))
+            p, o = q[1], q[2]
+            if style.get("typekw") and p == ("i", RDFNS + "type") and o[0] in "in" and o[1] != EMPTY_ID:
+                d.setdefault("@type", []).append(_jl_id(o))
+                continue
+            if mode == "coerce" and p[0] == "i" and o[0] in "in" and o[1] != EMPTY_ID:
+                name = _jl_term_name(p[1])
+                terms[name] = {"@id": p[1], "@type": "@id", "@context": {"zz": NS_E + "zz"}}
+                d.setdefault(name, []).append(_jl_id(o))
+                continue
+            key = p[1] if p[0] == "i" else "_:" + p[1]      # blank-node property key (generalized RDF)
+            d.setdefault(key, []).append(obj(o))
         return d
 
     nodes, seen = [], set()
     for q in qs:
         s = q[0]
         if s[0] == "a" and s in obj_anon:
+            continue
+        if mode == "reverse" and s[0] in "in" and q[1][0] == "i" and q[2][0] in "in" and not style.get("group"):
+            nodes.append({"@id": _jl_id(q[2]), "@reverse": {q[1][1]: [{"@id": _jl_id(s)}]}})
             continue
         if style.get("group") or s[0] == "a":
             if s in seen:
@@ -409,20 +478,28 @@ def _jl_nodes(qs, style):
 
 
 def write_jsonld(quads, style):
-    top = []
+    top, terms, named = [], {}, []
     for g, qs in blocks(quads):
-        nodes = _jl_nodes(qs, style)
+        nodes = _jl_nodes(qs, style, terms)
         if g is None:
+            if style.get("jl") == "included" and len(nodes) >= 2 and "@included" not in nodes[0]:
+                nodes = [{**nodes[0], "@included": nodes[1:]}]
             top += nodes
         else:
             if g[0] == "a":
                 raise ValueError("json-ld: anonymous graph name")
-            top.append({"@id": _jl_id(g), "@graph": nodes})
+            go = {"@id": _jl_id(g), "@graph": nodes}
+            if style.get("jl") == "nestgraph" and named:
+                named[0]["@graph"].append(go)           # a graph object inside another graph object: still its own graph
+            else:
+                top.append(go)
+            named.append(go)
     doc = top
+    ctx = dict(terms)
     if any(t is not None and t[0] == "n" and t[1] == EMPTY_ID for q in quads for t in q):
-        doc = {"@context": {"@base": None}, "@graph": top}
-    elif style.get("anonstyle"):
-        doc = {"@context": {}, "@graph": top}
+        ctx["@base"] = None
+    if ctx or style.get("anonstyle"):
+        doc = {"@context": ctx, "@graph": top}
     return json.dumps(doc, indent=1 if style.get("group") else None)
 
 
@@ -451,7 +528,7 @@ def write_hext(quads, style):
 
 
 def write_n3(quads, style):
-    style = {**style, "sparqlprefix": False}      # N3 has no SPARQL-style PREFIX
+    style = {**style, "sparqlprefix": False, "n3path": style.get("path")}      # N3 has no SPARQL-style PREFIX; paths are N3 only
     top, formulas = [], {}
     for q in quads:
         if q[3] is None:
